@@ -218,8 +218,19 @@ func checkC19(c *Ctx) {
 			}
 		}
 	}
-	c.R.Min("R-path", 5)
+	anyPath := false
+	for _, t := range tkeys {
+		if len(pathAppliers[t]) > 0 {
+			anyPath = true
+		}
+	}
+	if anyPath {
+		c.R.Min("R-path", 5)
+	} else {
+		c.R.Hold("R-path", "no builder overrides the path by assigning to the request URL", "", "how the configured URL reaches the request is judged by R-url-verbatim")
+	}
 	c.R.Min("R-session-header", 5)
+	c19URLVerbatim(c, builders)
 	c19Suppressors(c, builders)
 	c19HeaderMerge(c)
 }
@@ -834,4 +845,86 @@ func setsHeaderConstIn(c *Ctx, fn *ssa.Function, req ssa.Value, key string, dept
 		}
 	}
 	return found
+}
+
+// ---------------------------------------------------------------- R-url-verbatim
+// The address handed to http.NewRequest* is the configured URL rendered as it is: the String() of a *url.URL held in a
+// member of the transport (the user's URL with its query string), or a member holding the endpoint the server
+// announced. A URL rebuilt from parts (ResolveReference, JoinPath, Sprintf of host and path) silently loses what the
+// rebuilding does not copy — typically the query string carrying a token or a tenant.
+func c19URLVerbatim(c *Ctx, builders []*builder) {
+	var judge func(fn *ssa.Function, v ssa.Value, depth int) string
+	judge = func(fn *ssa.Function, v ssa.Value, depth int) string {
+		v = ir.Unwrap(v)
+		switch x := v.(type) {
+		case *ssa.Call:
+			n := ir.CallName(x)
+			if n == "(*net/url.URL).String" {
+				recv := x.Call.Args[0]
+				if _, _, ok := ir.LoadedField(recv); ok {
+					return ""
+				}
+				if p, ok := recv.(*ssa.Parameter); ok {
+					_ = p
+					return ""
+				}
+				if oc := originCall(recv); oc != nil {
+					return "the URL is rebuilt with " + ir.CallName(oc) + " before it is rendered"
+				}
+				return "the URL rendered is not the configured one"
+			}
+			sc := ir.StaticCallee(x)
+			if sc != nil && c.P.IsLib(sc) && depth < 2 {
+				why := ""
+				ir.EachInstr(sc, func(blk *ssa.BasicBlock, _ int, in ssa.Instruction) {
+					if r, ok := in.(*ssa.Return); ok && blk != sc.Recover && len(ir.Results(r)) > 0 {
+						if w := judge(sc, ir.Results(r)[0], depth+1); w != "" {
+							why = w + " (in " + fname(sc) + ")"
+						}
+					}
+				})
+				return why
+			}
+			return "the address is computed by " + n
+		case *ssa.Phi:
+			for _, e := range x.Edges {
+				if w := judge(fn, e, depth+1); w != "" {
+					return w
+				}
+			}
+			return ""
+		case *ssa.UnOp:
+			if _, _, ok := ir.LoadedField(x); ok {
+				return "" // a string member holding the address
+			}
+		case *ssa.Parameter:
+			return ""
+		case *ssa.BinOp:
+			return "the address is concatenated from parts"
+		}
+		return ""
+	}
+	n := 0
+	for _, b := range builders {
+		args := b.newReq.Call.Args
+		var urlArg ssa.Value
+		switch ir.CallName(b.newReq) {
+		case "net/http.NewRequestWithContext":
+			if len(args) >= 3 {
+				urlArg = args[2]
+			}
+		case "net/http.NewRequest":
+			if len(args) >= 2 {
+				urlArg = args[1]
+			}
+		}
+		if urlArg == nil {
+			continue
+		}
+		n++
+		why := judge(b.fn, urlArg, 0)
+		c.R.Check(why == "", "R-url-verbatim", "address of the request built by "+fname(b.fn), c.Pos(b.newReq.Pos()), "the configured URL rendered verbatim",
+			sprintf("%s does not send its request to the configured URL as it was given: %s — components it does not copy (the query string) are lost on every request", fname(b.fn), why))
+	}
+	c.R.Min("R-url-verbatim", 9)
 }
